@@ -12,6 +12,7 @@ import (
 	"sort"
 	"strings"
 	"sync"
+	"time"
 )
 
 // insertFences adds yield points to the scratch copy (DESIGN.md 3.4).  Sites
@@ -149,7 +150,42 @@ type evidence struct {
 	Violations  int            `json:"violations"`
 }
 
-func writeEvidence(id, tier string, seed int64, agg *WorkerStats, distinct int, wall, buildS float64, violations, workers int) {
+// confirmDeath: a worker that died without statistics is re-run alone at the
+// case it had announced; if it dies again, the death is the violation.
+func confirmDeath(id string, seed int64, bin, scratch string, r workerResult) string {
+	b, err := os.ReadFile(filepath.Join(r.dir, "announce"))
+	if err != nil || r.timedOut {
+		return ""
+	}
+	var kind string
+	var n int
+	if k, _ := fmt.Sscanf(string(b), "%s %d", &kind, &n); k != 2 {
+		return ""
+	}
+	rp := Replay{Property: id, Seed: seed, Worker: r.idx, RapidSeed: r.rapidSeed}
+	var rr workerResult
+	dir := filepath.Join(scratch, fmt.Sprintf("death%d", r.idx))
+	if kind == "enum" {
+		rp.IsEnum, rp.EnumIndex = true, n
+		rr = runWorker(bin, id, 950+r.idx, 1, 1, dir, []string{fmt.Sprintf("VERIF_ENUM=index:%d", n)}, nil, 10*time.Minute)
+	} else {
+		rp.RapidIter = n
+		rr = runWorker(bin, id, 950+r.idx, r.rapidSeed, n+1, dir, nil, nil, 20*time.Minute)
+	}
+	if rr.stats != nil || rr.timedOut {
+		return "" // did not die again: not reproducible, reported as trouble by the caller
+	}
+	rp.Death = tail(rr.output, 6000)
+	rp.Note = "the worker process was killed while running this case (a panic or fatal error in the system under test takes the whole process down); replay: verif replay <this file>"
+	out := filepath.Join(verifDir, "replays", id)
+	os.MkdirAll(out, 0o755)
+	path := filepath.Join(out, fmt.Sprintf("%s-seed%d-death-%s%d.json", id, seed, kind, n))
+	jb, _ := json.MarshalIndent(rp, "", " ")
+	os.WriteFile(path, jb, 0o644)
+	return path
+}
+
+func writeEvidence(id, tier string, seed int64, agg *WorkerStats, distinct int, wall, buildS float64, violations, workers int, enumStride int) {
 	meta := checkMeta[id]
 	if meta.Rule == "" {
 		meta.Rule = agg.Rule
@@ -212,6 +248,15 @@ func writeEvidence(id, tier string, seed int64, agg *WorkerStats, distinct int, 
 		"real_components":      meta.Real,
 		"simulated_components": meta.Stub,
 		"build_s":              buildS,
+	}
+	if agg.EnumCount > 0 {
+		cov["enumerated_space"] = agg.EnumCount
+		cov["enumerated_cases_run"] = agg.EnumRan
+		cov["enumeration_stride"] = enumStride
+		cov["enumeration_exhaustive"] = enumStride == 1 && agg.EnumRan == agg.EnumCount
+		cov["enumeration_rule"] = agg.EnumRule
+		cov["enumeration_params"] = agg.EnumParams
+		cov["rule"] = meta.Rule + " | " + agg.EnumRule
 	}
 	ev := evidence{PropertyID: id, Tier: tier, Seed: seed, Level: level, Coverage: cov, Assumptions: meta.Assumptions, WallS: wall, Violations: violations}
 	b, _ := json.MarshalIndent(ev, "", " ")
